@@ -44,6 +44,8 @@ class NohBlackBoxEos(ExactSolver):
 
             if self.geometry not in [1, 2, 3]:
                 raise ValueError("geometry must be 1, 2, or 3")
+            if self.u0 >= 0:
+                raise ValueError("Incident velocity must be negative")
 
         def _discard_cached_solution(self):
               # A jump-condition solution cached by an earlier call was obtained
